@@ -149,6 +149,18 @@ pub fn state_event_hist(id: usize, p: &Problem, k: u32, first: Option<u32>) -> V
             solver.solve();
             solver.settings.max_iter = k;
         }
+        // "+failed": a factorisation that FAILED lies in the solver's past (A poisoned with a NaN through the update API, a
+        // solve, the original values written back): the copies must be clean again - no regularisation left behind
+        if pk.tag.contains("+failed") && solver.is_data_update_allowed() && !A.nzval.is_empty() {
+            let mut bad = A.nzval.clone();
+            bad[0] = f64::NAN;
+            if solver.update_A(&bad).is_ok() {
+                solver.settings.max_iter = 3;
+                solver.solve();
+                solver.update_A(&A.nzval).expect("update_A with the original values");
+                solver.settings.max_iter = k;
+            }
+        }
         clarabel::verif::set_detail(1_000_000);
         clarabel::verif::start();
         solver.solve();
@@ -443,6 +455,7 @@ pub fn record_states(seed: u64, count: usize) -> (Vec<Value>, Vec<Value>) {
             s.insert("equilibrate_enable".into(), json!(false));
             p.tag.push_str("+tinysoc");
         }
+        if rng.gen::<f64>() < 0.12 { p.tag.push_str("+failed"); }
         p.settings = Value::Object(s);
         let k = [0u32, 1, 2, 3, 5, 8, 200][rng.gen_range(0..7)];
         let first = if rng.gen::<f64>() < 0.4 { Some([1u32, 3, 200][rng.gen_range(0..3)]) } else { None };
